@@ -615,6 +615,25 @@ fn rewrites(src: &mut Src, st: &mut Stats, _env: &Env) -> CaseResult {
     Ok(())
 }
 
+/// How often the parts are evaluated: a compound evaluates each part exactly as
+/// often as the rule says (a projection its right-hand side once per element,
+/// `&&` / `||` their right operand only when needed, a pipe each side once).
+/// A logging identity function stands in for the part; the count is compared
+/// with the reference evaluator's, the value with the built-in `not_null`.
+fn evaluation_counts(src: &mut Src, st: &mut Stats, _env: &Env) -> CaseResult {
+    let forms = [
+        "xs[*].{C}", "xs[].{C}", "xs[1:].{C}", "xs[::-1].{C}", "o.*.{C}", "xs[?{C}]", "objs[?a == `1`].{C}", "objs[*].a | {C}", "xs[*].[{C}]", "xs[*].{k: {C}}", "xs[*].{C}.{C}", "(xs[*].{C})[0]",
+        "xs[*].{C} | [0]", "[{C}, {C}]", "{a: {C}, b: {C}}", "{C} | {C}", "{C}.a", "{C} && {C}", "{C} || {C}", "z && {C}", "n || {C}", "!{C}", "{C} == {C}", "{C} < n", "objs[*].a[?{C}]", "xs[*] | [*].{C}",
+        "objs[*].{C}.a", "map(&{C}, xs)", "xs[*].{C} || xs[*].{C}", "[xs[*].{C}, o.*.{C}]", "xs[?{C}].{C}", "xs[*].to_array({C})[]",
+    ];
+    let calls = ["rec(@)", "rec(n)", "rec(z)", "rec(xs)", "rec(@.a)"];
+    let form = *src.pick(&forms);
+    let call = *src.pick(&calls);
+    let text = form.replace("{C}", call);
+    st.class("evaluation-count-form");
+    crate::props::c15::check_call_text("evaluation-counts", &text, src, st)
+}
+
 /// Projections over large arrays (1000..5000 elements): the result is still the
 /// per-element results in order, however many elements there are.
 fn scale(env: &Env, st: &mut Stats) -> Vec<Failure> {
@@ -715,6 +734,7 @@ pub fn property() -> Property {
         minimise: None,
         subs: vec![
             Sub::Custom(CustomSub { name: "scale", run: scale, replay: replay_scale }),
+            Sub::Bytes(BytesSub { name: "evaluation-counts", f: evaluation_counts, max_len: 64, quick: Budget { threads: 4, cases: 1500 }, thorough: Budget { threads: 16, cases: 20_000 }, keep_unreproducible: false }),
             Sub::Bytes(BytesSub { name: "rewrites", f: rewrites, max_len: 1500, quick: Budget { threads: 8, cases: 12000 }, thorough: Budget { threads: 16, cases: 300_000 }, keep_unreproducible: false }),
             Sub::Bytes(BytesSub { name: "compound", f: compound, max_len: 1500, quick: Budget { threads: 8, cases: 24000 }, thorough: Budget { threads: 16, cases: 200_000 }, keep_unreproducible: false }),
         ],
